@@ -10,10 +10,10 @@ package main
 // initial note (the state at subscription time) first and W's changes after it, in order; the earlier subscribers and
 // the reference subscription see W's changes as always.  Kinds window-var / window-set / window-event.  The logs are
 // judged like those of every other round (chain / exactly-once / true-difference / fold / last = final, by the Go
-// oracle and by the Lean driver).  If the hook is not reached (a build without it) the round still runs, unparked.
+// oracle and by the Lean driver); in addition the writer must not get through while S is parked (oracle `handoff`).  If the
+// hook is not reached (a build without it) the round still runs, unparked.
 
 import (
-	"runtime"
 	"strings"
 	"sync"
 	"sync/atomic"
@@ -97,16 +97,22 @@ func stressWindow(r *hx.Run, rng *hx.Rng, kind string) bool {
 	if reached {
 		// wait until the writer has finished or stands at a mutex
 		deadline := time.Now().Add(windowSettle)
+		time.Sleep(50 * time.Microsecond)
 		for !wdone.Load() && time.Now().Before(deadline) {
 			if id := writerID.Load(); id != 0 && parkedInMutex(goroutineStates()[id]) {
 				r.Count("stress:" + kind + ":writer-waits-for-the-subscriber")
 
 				break
 			}
-			runtime.Gosched()
+			time.Sleep(100 * time.Microsecond) // a goroutine dump stops the world: do not take them back to back
 		}
 		if wdone.Load() {
+			// the writer changed the object after S was registered, so it owes S the change - after S's initial note, which
+			// S has not been handed yet: a writer that is through has either notified S ahead of its initial state or
+			// passed it over.  Reported here, before S goes on (in a broken hand-off S may end in a fatal unlock)
 			r.Count("stress:" + kind + ":writer-finished-in-the-window")
+			fail(r, kind, "handoff", "a writer that changed the object finished while a subscriber registered before the change "+
+				"was still waiting for its initial invocation (parked in the OnUpdate window)", s.line(o.lineKind, o.final()))
 		}
 	}
 	close(gate)
